@@ -34,15 +34,18 @@ func TestMain(m *testing.M) { evid.Main(m, "C11", rule, assumptions) }
 
 // Node is one statement of a registration program.
 type Node struct {
-	K        string   `json:"k"` // group | method | route | any | routes | combo | autohead
-	Path     string   `json:"path,omitempty"`
-	Methods  []string `json:"methods,omitempty"` // method: 1; routes: n; combo: n
-	Form     string   `json:"form,omitempty"`    // routes: list | args
-	H        int      `json:"h,omitempty"`       // own handlers (for combo: per method)
-	Common   int      `json:"common,omitempty"`  // combo: common handlers
-	Spare    bool     `json:"spare,omitempty"`   // pass handlers as a sub-slice with spare capacity
-	On       bool     `json:"on,omitempty"`      // autohead
-	Children []Node   `json:"children,omitempty"`
+	K       string   `json:"k"` // group | method | route | any | routes | combo | autohead
+	Path    string   `json:"path,omitempty"`
+	Methods []string `json:"methods,omitempty"` // method: 1; routes: n; combo: n
+	Form    string   `json:"form,omitempty"`    // routes: list | args
+	H       int      `json:"h,omitempty"`       // own handlers (for combo: per method)
+	Common  int      `json:"common,omitempty"`  // combo: common handlers
+	Spare   bool     `json:"spare,omitempty"`   // pass handlers as a sub-slice with spare capacity
+	On      bool     `json:"on,omitempty"`      // autohead
+	// Again (routes, form args): the same argument list (method strings and
+	// handlers, one slice) is used for a second declaration, of "/again"+path.
+	Again    bool   `json:"same_arguments_again,omitempty"`
+	Children []Node `json:"children,omitempty"`
 }
 
 type Case struct {
@@ -133,6 +136,11 @@ func (fl *flattener) walk(nodes []Node, prefix string, ghs []int) {
 			own := fl.ids(n.H)
 			for _, m := range n.Methods {
 				fl.out = append(fl.out, Flat{strings.ToUpper(strings.TrimSpace(m)), prefix + n.Path, cat(ghs, own)})
+			}
+			if n.Again && n.Form == "args" {
+				for _, m := range n.Methods {
+					fl.out = append(fl.out, Flat{strings.ToUpper(strings.TrimSpace(m)), prefix + "/again" + n.Path, cat(ghs, own)})
+				}
 			}
 		case "combo":
 			common := fl.ids(n.Common)
@@ -252,6 +260,11 @@ func (b *builder) walk(nodes []Node) {
 				}
 				args = append(args, hs...)
 				f.Routes(n.Path, n.Methods[0], args...)
+				if n.Again {
+					// table-driven registration: the same argument list once more, for
+					// another path
+					f.Routes("/again"+n.Path, n.Methods[0], args...)
+				}
 			} else {
 				f.Routes(n.Path, strings.Join(n.Methods, ", "), hs...)
 			}
@@ -836,7 +849,9 @@ func (g *gstate) nodes(t *rapid.T, depth int, own string, bare bool) []Node {
 			if rapid.Bool().Draw(t, "lower") {
 				ms[0] = strings.ToLower(ms[0])
 			}
-			out = append(out, Node{K: "routes", Path: routePath(), Methods: ms, Form: []string{"list", "args"}[rapid.IntRange(0, 1).Draw(t, "form")], H: rapid.IntRange(0, 2).Draw(t, "h"), Spare: spare})
+			rn := Node{K: "routes", Path: routePath(), Methods: ms, Form: []string{"list", "args"}[rapid.IntRange(0, 1).Draw(t, "form")], H: rapid.IntRange(0, 2).Draw(t, "h"), Spare: spare}
+			rn.Again = rn.Form == "args" && strings.HasPrefix(rn.Path, "/r") && rapid.IntRange(0, 2).Draw(t, "again") == 0
+			out = append(out, rn)
 		case k < 11:
 			pool := append([]string{"GET"}, nonGet...)
 			if !g.autoHead {
